@@ -20,3 +20,12 @@ META["C05"] = {
     "note": "Trusts the harness reference (lib/refmask.go) and protobuf-go reflection/Equal/Clone; update masks strictly broader than the writable fields are accepted-with-frame-intact or rejected (both allowed); presence of empty intermediate messages on mask paths is ignored; negative zero floats are not generated (protobuf-go Clone drops them).",
     "technique": "rapid property-based testing against an independent reference implementation of masked update + frame-condition invariant",
 }
+META["C06"] = {
+    "text": ("Property-based testing of every read entry point against an independent projection: rapid draws (message, mutated second message, read mask) over the "
+             "all-field-kinds message and 10 trait messages; the masked result of ResponseFilter.Filter/FilterClone, ReadRequest.FilterClone, Value.Get, Value.Pull "
+             "(seed and event), Collection.Get/List and Collection.Pull (seed, update old/new, remove old) must equal a protoreflect-only projection, and the "
+             "stored/passed messages are deep-compared before and after. Systematically corrupted masks must be rejected by Validate with InvalidArgument and must "
+             "not panic any entry point. Thorough tier adds a native go-fuzz target over (message bytes, path list)."),
+    "note": "Trusts lib.RefProject and protobuf-go; presence of empty intermediate messages on mask paths is not compared; for invalid masks only validation/no-panic/non-mutation are asserted (what such a read returns is unspecified).",
+    "technique": "rapid property-based testing (differential against an independent projection) + mask corruption + native fuzzing in the thorough tier",
+}
